@@ -24,7 +24,7 @@ CLAIMS = {
          'the evaluation identity at arbitrary weights is not decided'),
  'C10': ('required-subset-of-given guard => error; partial evaluation applied to the objective and every active constraint with the given map; all fields carried, parameters: Some(given); From<Instance> carries all fields; every list field moved or rebuilt element by element without a skip (C10.carry field-complete); missing-parameter guard accepts exactly supersets; with_parameters has no error of its own other than the missing-parameter guard',
          'the numerical identity is not decided'),
- 'C11': ('the three (PUBO) / four (QUBO) refusal guards dominate success with the right polarity; keys built only through the canonicalising constructors; zero filter present; every objective term reaches the map; no Err exit other than the stated refusals under their negated conditions; the compared id set derives from the objective only; diagonal / repeated keys accumulate; offset followed through every carry',
+ 'C11': ('the three (PUBO) / four (QUBO) refusal guards dominate success with the right polarity; keys built only through the canonicalising constructors; zero filter present; every objective term reaches the map; no Err exit other than the stated refusals under their negated conditions; the compared id set derives from the objective only; diagonal / repeated keys accumulate; offset followed through every carry; a key built in place inside the exporter is accepted only when the canonical-pair clauses hold on that fragment (sorted, de-duplicated, 1 or 2 ids, ordered, other lengths refused)',
          'the exported numbers are not decided'),
  'C12': ('five error guards (unknown, non-integer, no bound, non-finite, empty) dominate the loop; errors and the single-integer return precede any push; pushed variables are binary / [0,1] / fresh id / tagged; loop bound from an f64->usize cast is guarded by a finiteness test; guards reject NaN; subscripts start with the encoded id; fresh ids after every defined id; coefficients / ids paired per bit; lookup of the variable is by id over the whole list; the id search compares every element of decision_variables',
          'that the coefficients cover exactly ceil(l)..floor(u) is not decided'),
